@@ -90,20 +90,23 @@ def _has_empty_domain(rx: str, ctx: Any, v: dict, step: Any, it: Any, added: lis
     from . import oracle
 
     pat = re.compile(rx)
-    names = set()
-    for stm in added:
-        mm = re.match(r"([A-Za-z_][A-Za-z_0-9]*)\(", stm)
-        if mm and pat.fullmatch(mm.group(1)):
-            names.add(mm.group(1))
     rec = ctx.rec
-    if not names or rec is None or v.get("instance") is None:
+    if rec is None or v.get("instance") is None:
         return False
     text = None
+    names = set()
     for st in rec.stages:
         if st["name"] == step and st["iter"] == it:
             text = "\n".join(st["stmts"])
+            for stm in st["stmts"]:  # the recorded 'added' list is truncated, the stage is not
+                mm = re.match(r"([A-Za-z_][A-Za-z_0-9]*)\(", stm)
+                if mm and pat.fullmatch(mm.group(1)) and (mm.group(1), ) not in names:
+                    names.add(mm.group(1))
             break
-    if text is None:
+    if text is None or not names:
+        return False
+    names -= {n for n, _a in ctx.voc_source}  # only predicates the optimisation introduced
+    if not names:
         return False
     res = oracle.solve(text, v["instance"], ctx.consts, max_models=1)
     if not res.models:
